@@ -348,7 +348,7 @@ class AuthGen(srvlib.HistGen):
     def scenario(self, kind):
         r = self.rng
         self.scn = kind
-        A = self.sess(0)
+        A = self.sess(0, fam=4 if r.randrange(3) else 6)
         B = self.sess(1, fam=4 if r.randrange(4) else 6)
         outside = 0x08080808
         if kind == 'replay':
@@ -406,8 +406,13 @@ class AuthGen(srvlib.HistGen):
             for uid in range(16):
                 self.named(B, 'D', uid)
         elif kind == 'badlogin_then_use':
-            self.version(A)
+            self.version(A, nul_hash=(r.randrange(2) == 0))
             self.tick()
+            # near misses: one byte off at either end or in the middle, all zeros, equal up to a NUL byte
+            for m in r.sample(['first', 'last', 'zeros', 'after-nul', str(r.randrange(1, 15))], 3):
+                self.login(A, good=False, mode=m)
+                self.upstream_packet(A, dst_ip=outside)
+                self.ping(A)
             for d in [1, -1, 0]:
                 self.login(A, good=(d != 0), seed_delta=d)    # the response to another challenge / a corrupted one
                 self.tick()
@@ -436,7 +441,16 @@ class AuthGen(srvlib.HistGen):
             X = self.clone_as(A, B.addr)          # B's address, A's identity
             Y = self.clone_as(A, C.addr)          # a third party, A's identity
             Z = self.clone_as(A, (A.addr[0], A.addr[1], A.addr[2] + 77))   # A's address, other port: same session
-            for w in [X, Y, Z, X]:
+            # neighbours of A's own address: differing in exactly one byte, at either end and in the middle
+            # (an address comparison that looks at a prefix or a suffix only would accept one of them)
+            ipb = A.addr[1]
+            near = []
+            for pos in sorted(set([0, len(ipb) - 1, len(ipb) // 2, 3 if len(ipb) > 4 else 1, 4 if len(ipb) > 4 else 2])):
+                nb = bytearray(ipb)
+                nb[pos] ^= r.choice([1, 0x80, 0x10])
+                near.append(self.clone_as(A, (A.addr[0], bytes(nb), A.addr[2])))
+            r.shuffle(near)
+            for w in [X, Y, Z, X] + near[:3]:
                 self.ping(w)
                 self.data(w)
                 self.named(w, r.choice('LNISORPD'), A.uid or 0)
